@@ -345,6 +345,81 @@ def accept_rule(analysis: Analysis, res: RuleResult, rule: str) -> None:
             res.add(rule, "sensor:Sensor.set_child_desired_state / every call that returns normally has recorded values[value_type] = value for the child", r["ok"], "mysensors/sensor.py", "new_state[child].values[value_type] = value" if r["ok"] else "a path returns normally without recording the caller's value: the value is accepted but never sent at wake-up, and an older pending value is not replaced", r["witness"] if not r["ok"] else None)
 
 
+def desired_records_worker(analysis: Analysis, scenario: str) -> dict:
+    """Concrete-state evaluation of the two places that create desired-state records: the wake-up initialisation
+    and the presentation of a new child on a node that is already in smart sleep mode. Children 7 (with a pending
+    desired value 25 in new_state) and 8 (no record yet) exist; every container is an exact dict."""
+    from ..values import Const, DictV, Obj
+
+    ctx = analysis.context(analysis.versions[-1], "serial", "sync")
+    it = analysis.new_interp(ctx)
+    st = it.new_state()
+    node = Obj("Sensor#S", "sensor:Sensor")
+
+    def child(oid, cid, vals):
+        c = Obj(oid, "sensor:ChildSensor")
+        for a, v in (("id", Const(cid)), ("type", Const(6)), ("description", Const("d")), ("values", DictV(dict(vals), closed=True, label=f"values:{oid}"))):
+            st.mem[(c.key(), "a", a)] = v
+        return c
+
+    c7, c8 = child("Child#7", 7, {0: Const("20")}), child("Child#8", 8, {0: Const("21")})
+    d7 = child("Desired#7", 7, {0: Const("25")})
+    st.mem[(node.key(), "a", "sensor_id")] = Const(1)
+    st.mem[(node.key(), "a", "children")] = DictV({7: c7, 8: c8}, closed=True, label="children")
+    st.mem[(node.key(), "a", "new_state")] = DictV({7: d7}, closed=True, label="new_state")
+    if scenario == "wake-up":
+        outs = analysis.run_root(it, "sensor:Sensor.init_smart_sleep_mode", [], node, st)
+        new_ids = [8]
+    else:
+        outs = analysis.run_root(it, "sensor:Sensor.add_child_sensor", [Const(9), Const(6), Const("x")], node, st)
+        new_ids = [9]
+    problems = []
+    n = 0
+    for kind, s, v in outs:
+        n += 1
+        if kind != "val":
+            problems.append(f"raises {v.cls.__name__}")
+            continue
+        ns = s.mem.get((node.key(), "a", "new_state"))
+        ch = s.mem.get((node.key(), "a", "children"))
+        if not (isinstance(ns, DictV) and ns.closed and isinstance(ch, DictV) and ch.closed):
+            problems.append("the maps are replaced or changed in a way that cannot be followed")
+            continue
+        # the pending desired value of child 7 survives
+        e7 = ns.entries.get(7)
+        vals7 = s.mem.get((e7.key(), "a", "values")) if isinstance(e7, Obj) else None
+        if not (isinstance(e7, Obj) and e7.key() == d7.key() and isinstance(vals7, DictV) and isinstance(vals7.entries.get(0), Const) and vals7.entries[0].value == "25"):
+            problems.append("the existing desired-state record of child 7 (pending value 25) is replaced or emptied: pending desired values of other children are lost")
+        for cid in new_ids:
+            rec = ns.entries.get(cid)
+            own = ch.entries.get(cid)
+            if scenario == "wake-up" and rec is None:
+                problems.append(f"child {cid} gets no desired-state record at wake-up")
+                continue
+            if scenario != "wake-up" and not (isinstance(own, Obj) and own.cls.endswith("ChildSensor")):
+                problems.append(f"child {cid} is not added as a new ChildSensor")
+            if rec is None:
+                continue
+            rv = s.mem.get((rec.key(), "a", "values")) if isinstance(rec, Obj) else None
+            ov = s.mem.get((own.key(), "a", "values")) if isinstance(own, Obj) else None
+            rid = s.mem.get((rec.key(), "a", "id")) if isinstance(rec, Obj) else None
+            if not (isinstance(rec, Obj) and rec.cls.endswith("ChildSensor") and (own is None or rec.key() != own.key())):
+                problems.append(f"the desired-state record of child {cid} is not a ChildSensor object of its own")
+            elif not (isinstance(rv, DictV) and not rv.entries and (ov is None or rv.key() != ov.key())):
+                problems.append(f"the desired-state record of child {cid} does not start with an empty value map of its own (it shares or copies the reported values: a report then clears itself, a desired value shows up as reported)")
+            elif not (isinstance(rid, Const) and rid.value == cid):
+                problems.append(f"the desired-state record of child {cid} carries another id")
+    analysis.interp_steps += it.steps
+    return {"scenario": scenario, "paths": n, "problems": sorted(set(problems))}
+
+
+def desired_records(analysis: Analysis, res, rule: str) -> None:
+    for r in common.pmap(analysis, desired_records_worker, ["wake-up", "late presentation"]):
+        fn = "sensor:Sensor.init_smart_sleep_mode" if r["scenario"] == "wake-up" else "sensor:Sensor.add_child_sensor"
+        ok = not r["problems"] and r["paths"] > 0
+        res.add(rule, f"{fn} / desired-state records: existing ones are kept, new ones are fresh ChildSensor objects with an empty value map of their own ({r['scenario']})", ok, "mysensors/sensor.py", f"{r['paths']} path(s) on a node with one pending desired value" if ok else "; ".join(r["problems"]))
+
+
 def run(analysis: Analysis, tier: str) -> RuleResult:
     res = RuleResult(PROP)
     res.explanation = [
@@ -372,6 +447,7 @@ def run(analysis: Analysis, tier: str) -> RuleResult:
         for p, w in probs.items():
             res.add("C08-R2", f"{FLUSH} / {p}", False, "mysensors/handler.py", p, w, context=summ["ctx"])
     confirmation_rule(analysis, res, "C08-R3")
+    desired_records(analysis, res, "C08-R3")
     lookup_rule(analysis, res, "C08-R4", "C08-R6")
     accept_rule(analysis, res, "C08-R5")
     res.units = {"flush_paths": n_paths, "source_digest": analysis.p.digest()}
